@@ -28,7 +28,7 @@ Proof. exact auto_close_resets_l. Qed.
 Theorem tell_after_transfer :
   forall BUF dec, (forall S, dec_ok BUF dec S) -> forall d, wf_db d ->
   forall f r, nth_error (d_fields d) f = Some (FRaw r) ->
-  forall s k n, mult_ok d -> InvH d s -> 0 <= k <= 2 ^ 61 -> 0 <= n <= 2 ^ 61 -> spec_window d f k n <> [] ->
+  forall s k n, InvH d s -> 0 <= k <= 2 ^ 61 -> 0 <= n <= 2 ^ 61 -> spec_window d f k n <> [] ->
     snd (step dec d (fst (step dec d s (CGet f (Some k) n))) (CTell f)) = RPos (k + len (spec_window d f k n)).
 Proof. exact tell_after_get_raw. Qed.
 
@@ -61,7 +61,7 @@ Proof. exact seek_cur_raw. Qed.
 
 (* gd_seek followed by a GD_HERE read transfers the same samples as the absolute call *)
 Theorem here_equals_absolute :
-  forall BUF dec, (forall S, dec_ok BUF dec S) -> forall d, wf_db d -> mult_ok d ->
+  forall BUF dec, (forall S, dec_ok BUF dec S) -> forall d, wf_db d ->
   forall f r, nth_error (d_fields d) f = Some (FRaw r) ->
   forall s p n, InvH d s -> rd_foff (get_rd d r) <= p <= rd_foff (get_rd d r) + nsamp (get_rd d r) ->
     p <= 2 ^ 61 -> 0 <= n <= 2 ^ 61 ->
@@ -73,7 +73,7 @@ Proof. exact here_equals_absolute_l. Qed.
 (* sequential access equals random access: the GD_HERE read after reading [k, k+m) is the
    window starting at k+m *)
 Theorem sequential_equals_random :
-  forall BUF dec, (forall S, dec_ok BUF dec S) -> forall d, wf_db d -> mult_ok d ->
+  forall BUF dec, (forall S, dec_ok BUF dec S) -> forall d, wf_db d ->
   forall f r, nth_error (d_fields d) f = Some (FRaw r) ->
   forall s k n n2, InvH d s -> 0 <= k <= 2 ^ 60 -> 0 <= n <= 2 ^ 60 -> 0 <= n2 <= 2 ^ 61 -> spec_window d f k n <> [] ->
     let s' := fst (step dec d s (CGet f (Some k) n)) in
